@@ -88,6 +88,8 @@ func HandWritten() []*Case {
 		mk("h58", "outer-field-with-the-go-name-of-a-promoted-field", "ph58", "type Stamps struct {\n\tID int `json:\"revision_id\"`\n\tAt string `json:\"at\"`\n}\ntype Doc struct {\n\tID int `json:\"id\"`\n\tStamps\n\tTitle string\n}\ntype Hidden struct {\n\tID int `json:\"-\"`\n\tStamps\n\tNote string\n}\n", ""),
 		withRoot(mk("h62", "enum-of-the-package-at-the-module-root", "ph62", "type Order struct {\n\tS synth.RootStatus\n\tHistory []synth.RootStatus\n\tByMode map[synth.RootMode]int\n}\n", ""), "type RootStatus int\nconst (\n\tRootOpen RootStatus = iota\n\tRootPaid\n\tRootShipped\n)\ntype RootMode string\nconst (\n\tRootFast RootMode = \"fast\"\n\tRootSlow RootMode = \"slow\"\n)\n"),
 		mk("h63", "embedded-struct-tagged-gomacro-data-ignore-and-used-elsewhere", "ph63", "type Kind int\nconst (\n\tPlain Kind = iota + 1\n\tFancy\n)\ntype Audit struct {\n\tKind Kind\n\tBy string\n\tTags []string\n}\ntype Order struct {\n\tAudit `gomacro-data:\"ignore\"`\n\tN int\n}\ntype Report struct {\n\tA Audit\n\tL []Audit\n}\n", ""),
+		withSub(mk("h64", "jsonb-column-reaching-an-enum-of-a-sub-package-with-a-constant-in-the-analysed-package", "ph64", "const DefaultLevel = levels.Mid\ntype Meta struct {\n\tLevel levels.Level\n\tNote string\n\tHistory []levels.Level\n}\ntype Doc struct {\n\tId int64\n\tMeta Meta\n\tByName map[string]levels.Level\n}\n", ""), "levels", "type Level int\nconst (\n\tLow Level = iota\n\tMid\n\tHigh\n)\n"),
+		mk("h66", "structs-embedding-each-other-through-pointers", "ph66", "type Order struct {\n\t*Customer\n\tRef string\n\tTotal int\n}\ntype Customer struct {\n\t*Order\n\tName string\n\tAge int\n}\ntype Basket struct {\n\tO Order\n\tC []Customer\n}\n", ""),
 		mk("h61", "union-members-of-another-file-through-promoted-methods", "ph61", "type Shape interface{ isShape() }\ntype Drawing struct {\n\tMain Shape\n\tName string\n}\n", "type base struct{ ID int }\nfunc (base) isShape() {}\ntype Circle struct {\n\tbase\n\tR float64\n}\ntype Square struct {\n\t*base\n\tSide float64\n}\ntype Dot struct{ X, Y int }\nfunc (Dot) isShape() {}\n"),
 		mk("h60", "union-marker-method-on-a-pointer-receiver", "ph60", "type Shape interface{ isShape() }\ntype Circle struct{ R int }\nfunc (Circle) isShape() {}\ntype Square struct{ Side int }\nfunc (Square) isShape() {}\n// Canvas satisfies Shape through its pointer only: the value type is no member\ntype Canvas struct{ W, H int }\nfunc (c *Canvas) isShape() {}\ntype Drawing struct {\n\tMain Shape\n\tAll []Canvas\n}\n", ""),
 		withSub(mk("h57", "union-struct-embedding-a-struct-of-a-sub-package", "ph57", "type Shape interface{ isShape() }\ntype Circle struct{ R float64 }\nfunc (Circle) isShape() {}\ntype Drawing struct {\n\tmeta.Info\n\tMain Shape\n\tTitle string\n}\n", ""), "meta", "type Kind int\nconst (\n\tDraft Kind = iota\n\tFinal\n)\ntype Label string\ntype Info struct {\n\tKind Kind\n\tLabels []Label\n\tRev int\n}\n"),
@@ -191,8 +193,18 @@ func SameNamedPackages() []*Case {
 	settings.Imports["kinds"] = d2.PkgPath(kinds2)
 	d2.Main.Imports["kinds"] = d2.PkgPath(kinds2)
 	d2.Main.Imports["settings"] = d2.PkgPath(settings)
-	d2.Main.Files = []*File{{Name: "defs.go", Decls: []*Decl{{Kind: "raw", Name: "T", Text: "type T struct {\n\tK kinds.Kind\n\tP settings.Prefs\n}\n"}}}}
-	return []*Case{c, d, d2}
+	d2.Main.Files = []*File{{Name: "defs.go", Decls: []*Decl{{Kind: "raw", Name: "T", Text: "type T struct {\n\tK kinds.Kind\n\tP settings.Prefs\n\tM map[string]kinds.Kind\n}\n"}}}}
+	// two packages of one name holding enums only (no union: every generator accepts the program)
+	e := &Case{ID: "samepkg2", Feat: []string{"hand:same-package-name-enums-only"}}
+	e.Main = &Pkg{Name: "psame2", Imports: map[string]string{}}
+	ebody := "type Item struct{ X int }\ntype Status int\nconst (\n\tOpen Status = iota + 1\n\tClosed\n\tLost\n)\ntype Mode string\nconst (\n\tFast Mode = \"fast\"\n\tSlow Mode = \"slow\"\n)\n"
+	ea := &Pkg{Dir: "a/models", Name: "models", Files: []*File{{Name: "m.go", Decls: []*Decl{{Kind: "raw", Name: "m", Text: ebody}}}}}
+	eb := &Pkg{Dir: "b/models", Name: "models", Files: []*File{{Name: "m.go", Decls: []*Decl{{Kind: "raw", Name: "m", Text: ebody}}}}}
+	e.Subs = []*Pkg{ea, eb}
+	e.Main.Imports["amodels"] = e.PkgPath(ea)
+	e.Main.Imports["bmodels"] = e.PkgPath(eb)
+	e.Main.Files = []*File{{Name: "defs.go", Decls: []*Decl{{Kind: "raw", Name: "T", Text: "type Order struct {\n\tSa amodels.Status\n\tSb bmodels.Status\n\tMa amodels.Mode\n\tMb bmodels.Mode\n\tHist []bmodels.Status\n\tItems []amodels.Item\n}\n"}}}}
+	return []*Case{c, d, d2, e}
 }
 
 // ManyImports returns programs whose types come from several packages (so that the import lists
